@@ -85,6 +85,11 @@ func TestC08Big(t *testing.T) {
 func TestC06Big(t *testing.T) {
 	seed, _ := strconv.ParseUint(os.Getenv("VERIF_SHARD_SEED"), 10, 64)
 	lens := bigLens(seed ^ 0x9e3779b97f4a7c15)
+	if tier() == "thorough" {
+		// (thorough tier only, it takes half a gigabyte: one cell at the next power of two that a packed length field
+		// may end at - the string pointer documents 28 bits)
+		lens = append(lens, 1<<27+5)
+	}
 	n := len(lens) + 2
 	qf := qframe.New(map[string]interface{}{"id": hx.Iota(n), "s": make([]string, n)})
 	want := make([]*string, n)
